@@ -8,14 +8,15 @@
 //     the state right after the mode switch, and the write-cache accounting is unchanged;
 //   - a mutating request returned the shard's mode error;
 //   - the read battery answers what docs/shard-modes.md promises for the mode.
+//
 // No transition may change the persistent state, so the reachable set is the handful of volatile
 // variants (announced epoch, GC processed epoch); the BFS runs until no new state appears, which
 // covers operation sequences of every length.
 package main
 
 import (
-	"context"
 	"bytes"
+	"context"
 	"errors"
 	"fmt"
 	"os"
@@ -114,11 +115,11 @@ var images = []image{
 // ---------- configs ----------
 
 type config struct {
-	Img  int
-	WC   bool
-	Mode mode.Mode
-	dir     string // closed pre-populated image (read-write history only)
-	logical string // digest of the logical persistent state right after the mode switch
+	Img     int
+	WC      bool
+	Mode    mode.Mode
+	dir     string            // closed pre-populated image (read-write history only)
+	logical string            // digest of the logical persistent state right after the mode switch
 	objs    map[string][]byte // physically stored objects (address -> bytes)
 }
 
